@@ -78,7 +78,7 @@ let () =
   (* which properties a predicate speaks about *)
   let relevant name = pid = "" || List.mem pid (match name with
     | "mon16" -> ["C16"] | "eager_b" -> ["C08"] | "runE" -> ["C03"; "C08"] | "runC" -> ["C03"; "C10"] | "runK" -> ["C03"; "C07"]
-    | "chk" -> ["C03"; "C11"; "C12"] | "chkN" -> ["C11"; "C12"] | "once_b" -> ["C11"; "C12"] | "bal_b" -> ["C02"; "C05"] | _ -> []) in
+    | "chk" -> ["C03"; "C11"; "C12"] | "chkN" -> ["C11"; "C12"] | "chkN-strict" -> ["C11"] | "once_b" -> ["C11"; "C12"] | "bal_b" -> ["C02"; "C05"] | _ -> []) in
   let nfail = ref 0 and neval = ref 0 in
   (try while true do
     let case = input_line cases in let trace = input_line traces in
@@ -107,6 +107,8 @@ let () =
          if is_group && not has_ext then begin
            check "chk" (lazy (chk O [] live));
            check "chkN" (lazy (chkN (comb = "sgroup" || comb = "sgroup_keyed") O O live));
+           (* the Pending half for a FutureGroup (C11_pending_means_nonempty): no member of the crate's groups can answer End *)
+           if (comb = "fgroup" || comb = "fgroup_keyed") && noend live then check "chkN-strict" (lazy (chkN true O O live));
            if comb = "fgroup_keyed" || comb = "sgroup_keyed" then check "once_b" (lazy (once_b live))
          end;
          if comb = "join" || comb = "try_join" then check "bal_b" (lazy (bal_b (nat_of_int n) (strip t))))
